@@ -13,6 +13,7 @@ type Profile struct {
 	Steps    int            // ops per history
 	MaxEnts  int            // soft population cap
 	MaxBatch int            // max batch creation size
+	MaxRegs  int            // most filters registered at a time (0: 4)
 	PCached  float64        // probability that a batch/query op goes through a registered filter
 	PEmpty   float64        // probability of empty add/remove lists
 	NoLogic  bool           // only mask/relation filters
@@ -726,7 +727,7 @@ func (g *Gen) gen(k string) *Op {
 	case "Reset":
 		return &Op{K: k}
 	case "CacheRegister":
-		if len(g.S.regs) >= 4 {
+		if maxRegs := g.P.MaxRegs; len(g.S.regs) >= 4 && len(g.S.regs) >= maxRegs {
 			return nil
 		}
 		g.nextSlot++
